@@ -168,12 +168,42 @@ theorem wellTyped_reachable (hE : EnvOK E) (hC : ClassesOK E) (v : Val) (h : Rea
   | recv n v r _ hr ih => exact (wellTyped_step E hE hC n v r ih hr).1
   | result n v r _ hr ih => exact (wellTyped_step E hE hC n v r ih hr).2
 
-/-- what `WellTyped` says about one attribute of a well-typed instance -/
+/-- what `WellTyped` says about one attribute of a well-typed instance: it is unset, or it holds a value that
+conforms to the annotation — `conformsDeep`: `check_type`, and for container classes `check_type` does not
+look inside (`MutableSequence[t]` &c.) the element / key / value types as well -/
 theorem wellTyped_attr (c : Nat) (fs : Flds) (a : Nat) (sp : AttrSpec) (h : WellTyped E (.inst c fs))
-    (hsp : E.attr? c a = some sp) : fs.get a = MISSING ∨ conforms E sp.ty (fs.get a) = true := by
+    (hsp : E.attr? c a = some sp) : fs.get a = MISSING ∨ conformsDeep E sp.ty (fs.get a) = true := by
   rcases wtFlds_get E c a fs h with h' | h'
   · exact Or.inl h'
   · exact Or.inr (h'.1 sp hsp)
+
+/-- in particular `check_type` accepts it -/
+theorem wellTyped_attr_check_type (c : Nat) (fs : Flds) (a : Nat) (sp : AttrSpec) (h : WellTyped E (.inst c fs))
+    (hsp : E.attr? c a = some sp) : fs.get a = MISSING ∨ conforms E sp.ty (fs.get a) = true := by
+  rcases wellTyped_attr E c fs a sp h hsp with h' | h'
+  · exact Or.inl h'
+  · exact Or.inr (conformsDeep_conforms E h')
+
+/-- `conformsDeep` is `check_type` for every annotation `check_type` looks inside -/
+theorem conformsDeep_is_check_type (ty : Ty) (v : Val) (h : ty.isAbstract = false) :
+    conformsDeep E ty v = conforms E ty v := conformsDeep_eq E v h
+
+/-! ## container classes `check_type` does not look inside -/
+
+/-- **items_checked_by_prepare.** For an attribute annotated with a container class whose items `check_type`
+does not look at (`MutableSequence[t]`, `MutableSet[t]`, `MutableMapping[k, v]`; the same holds for any
+container annotation other than `List/Set/Dict`), whatever `CollectionAttrMutator.prepare()` lets through has
+only conforming items, keys and values: the per-item pass (`_prepare_items`) is what guards them. -/
+theorem items_checked_by_prepare (n : Nat) (inst : Val) (sp : AttrSpec) (v r : Val)
+    (habs : sp.ty.isAbstract = true) (h : collPrepare E n inst sp v = .ok r) : conformsDeep E sp.ty r = true :=
+  collPrepare_deep E n inst sp v r habs h
+
+/-- **stored_value_conforms_deep.** What `prepare_attr_value` hands to `mutate_attr` conforms deeply as soon as
+`check_type` accepts it — for every annotation, every value, every preparer. -/
+theorem stored_value_conforms_deep (n : Nat) (inst : Val) (sp : AttrSpec) (v : Val) (kw : Kw) (pv : Val)
+    (h : prepareAttrValue E n inst sp v kw = .ok pv) (hc : conforms E sp.ty pv = true) :
+    conformsDeep E sp.ty pv = true :=
+  prepareAttrValue_deepIf E n inst sp v kw pv h hc
 
 /-! ## a non-conforming value is rejected and nothing is stored -/
 
@@ -195,6 +225,54 @@ theorem bad_value_rejected_setattr (n : Nat) (recv : Val) (a : Nat) (sp : AttrSp
     run E n recv { op := .setattr a v } = ⟨recv, .raised .typeError⟩ := by
   rw [SpecVerif.Props.C05.setattr_is_with]
   exact bad_value_rejected E n recv a sp v pv [] true hsp (by simp [kwOk]) hpv hns hbad
+
+/-! ## deletion / reset: the default goes through the same checks as an assigned value -/
+
+/-- **bad_default_rejected.** When the class default of `a` (declared, produced by a default factory, or
+overridden in a subclass), after the preparer / dict cast / collection normalisation, does not conform to the
+annotation, `reset_<a>` (copying or in place) and `del obj.a` raise TypeError and the receiver keeps the
+value it had. -/
+theorem bad_default_rejected (n : Nat) (recv : Val) (a : Nat) (sp : AttrSpec) (pv : Val) (i : Bool)
+    (hsp : specOf E recv a = some sp) (hd : sp.defaultVal ≠ MISSING)
+    (hpv : prepareAttrValue E n recv sp sp.defaultVal [] = .ok pv) (hns : pv.isSent = false)
+    (hbad : conforms E sp.ty pv = false) :
+    run E n recv { op := .resetA a, inplace := i } = ⟨recv, .raised .typeError⟩ ∧
+    run E n recv { op := .delattr a } = ⟨recv, .raised .typeError⟩ := by
+  unfold run
+  simp [hsp, resetAttr, delAttrV, hd, hpv, mutateAttrV, hns, hbad, lift, Except.map]
+
+/-- the same when the pipeline itself rejects the default (e.g. the checking inserter: ValueError for a wrong
+element of a default collection): the error is passed on and nothing is stored -/
+theorem bad_default_error_stores_nothing (n : Nat) (recv : Val) (a : Nat) (sp : AttrSpec) (e : Err) (i : Bool)
+    (hsp : specOf E recv a = some sp) (hd : sp.defaultVal ≠ MISSING)
+    (hpv : prepareAttrValue E n recv sp sp.defaultVal [] = .error e) :
+    run E n recv { op := .resetA a, inplace := i } = ⟨recv, .raised e⟩ ∧
+    run E n recv { op := .delattr a } = ⟨recv, .raised e⟩ := by
+  unfold run
+  simp [hsp, resetAttr, delAttrV, hd, hpv, lift, Except.map]
+
+/-- `reset()` is all-or-nothing: when it raises (a default that cannot be assigned), the receiver is as it was -/
+theorem reset_error_stores_nothing (n : Nat) (recv : Val) (i cnd : Bool) (e : Err)
+    (h : (resetTop E n recv i cnd).ret = .raised e) : (resetTop E n recv i cnd).recv = recv := by
+  unfold resetTop at h ⊢
+  split
+  · rfl
+  · cases hcl : classOf recv with
+    | none => rfl
+    | some c =>
+      simp only []
+      cases hcs : E.cls? c with
+      | none => rfl
+      | some cs =>
+        simp only []
+        cases hr : resetAllV E n recv cs.attrs with
+        | mk v oe =>
+          cases oe with
+          | some e' => rfl
+          | none =>
+            rename_i hc
+            simp only [hc, hcl, hcs, hr, if_false, Bool.false_eq_true] at h
+            cases i <;> simp [outcomeOf] at h
 
 /-- a list element that does not conform (given, or produced by the item preparer / a transform) is
 rejected with ValueError by every sequence helper -/
@@ -266,6 +344,18 @@ example : ClassesOK Ew := by
   rcases hsp with rfl | rfl | rfl | rfl <;> decide
 
 example : EnvOK Ew where
+  depDefaultDeep := by
+    intro c a sp hsp hne
+    exfalso; apply hne
+    unfold Env.attr? Env.cls? at hsp
+    by_cases hc : c = 0
+    · subst hc
+      simp [Ew, ClassSpec.attr?, Option.bind, List.find?] at hsp
+      split at hsp <;> (try split at hsp) <;> (try split at hsp) <;> (try split at hsp) <;>
+        first | (cases hsp; rfl) | (cases hsp)
+    · have : (Ew.classes.find? fun x => x.id == c) = none := by
+        simp [Ew]; omega
+      rw [this] at hsp; cases hsp
   prepWT := fun _ _ _ _ hv => hv
   defaultWT := by
     intro c a sp hsp
@@ -309,5 +399,71 @@ example : step Ew 6 recvW (.elem 1 (.mapWith (.sc (.int 5)) (.sc (.int 1))) true
 example : step Ew 6 recvW (.api { op := .setattr 3 (.sc (.str 100)) }) = ⟨recvW, .raised .typeError⟩ := by decide
 example : step Ew 6 recvW (.api { op := .update MISSING [(3, .sc (.int 1)), (0, .list (.cons (.sc .none) .nil))], inplace := true })
     = ⟨recvW, .raised .valueError⟩ := by decide
+
+/-! ### container classes `check_type` does not look inside, descriptor-backed attributes, bad defaults -/
+
+/-- `a0 : MutableSequence[int]`, `a1 : MutableMapping[str, int]`, `a2 : int` backed by a property (no default of its
+own; reading it without an override gives the getter's value 4), `a3 : int = None` (a default that does not
+conform), `a4 : List[str]` with a default factory producing `["s100", 0]` -/
+def Ex : Env :=
+  { classes := [{ id := 0,
+                  attrs := [{ name := 0, ty := .mseq .int },
+                            { name := 1, ty := .mmap .str .int },
+                            { name := 2, ty := .int, classAttr := some (.sc (.int 4)) },
+                            { name := 3, ty := .int, default := some NONE, classAttr := some NONE },
+                            { name := 4, ty := .list .str,
+                              default := some (.list (.cons (.sc (.str 100)) (.cons (.sc (.int 0)) .nil))) }],
+                  initOrder := [0, 1, 2, 3, 4] }],
+    prep := fun _ _ v => v }
+
+def l12 : Val := .list (.cons (.sc (.int 1)) (.cons (.sc (.int 2)) .nil))
+def l1s : Val := .list (.cons (.sc (.int 1)) (.cons (.sc (.str 100)) .nil))
+def lS : Val := .list (.cons (.sc (.str 100)) .nil)
+
+/-- the defaults of `a3`, `a4` do not conform: the constructor refuses unless both are given … -/
+example : construct Ex 8 0 [(0, l12)] = .error .typeError := by decide
+example : construct Ex 8 0 [(0, l12), (3, .sc (.int 7))] = .error .valueError := by decide
+
+def recvX : Val := .inst 0 (.cons 0 l12 (.cons 1 MISSING (.cons 2 MISSING (.cons 3 (.sc (.int 7)) (.cons 4 lS .nil)))))
+
+example : construct Ex 8 0 [(0, l12), (3, .sc (.int 7)), (4, lS)] = .ok recvX := by decide
+example : WellTyped Ex recvX := by unfold WellTyped; decide
+
+/-- … and `del` / `reset_<a>` / `reset()` do not establish them later -/
+example : step Ex 8 recvX (.api { op := .delattr 3 }) = ⟨recvX, .raised .typeError⟩ := by decide
+example : step Ex 8 recvX (.api { op := .resetA 3, inplace := true }) = ⟨recvX, .raised .typeError⟩ := by decide
+example : step Ex 8 recvX (.api { op := .resetA 4 }) = ⟨recvX, .raised .valueError⟩ := by decide
+example : step Ex 8 recvX (.api { op := .reset, inplace := true }) = ⟨recvX, .raised .typeError⟩ := by decide
+
+/-- `check_type` accepts the list with a wrong item for `MutableSequence[int]`, the invariant does not … -/
+example : conforms Ex (.mseq .int) l1s = true := by decide
+example : conformsDeep Ex (.mseq .int) l1s = false := by decide
+/-- … and every whole-attribute route rejects it (the per-item pass), nothing stored -/
+example : step Ex 8 recvX (.api { op := .withA 0 l1s [] }) = ⟨recvX, .raised .valueError⟩ := by decide
+example : step Ex 8 recvX (.api { op := .setattr 0 l1s }) = ⟨recvX, .raised .valueError⟩ := by decide
+example : step Ex 8 recvX (.api { op := .transformA 0 (some fun _ => l1s) [] , inplace := true })
+    = ⟨recvX, .raised .valueError⟩ := by decide
+example : step Ex 8 recvX (.api { op := .update MISSING [(0, l1s)] }) = ⟨recvX, .raised .valueError⟩ := by decide
+example : step Ex 8 recvX (.api { op := .withA 1 (.dict (.cons (.sc (.str 100)) (.sc (.str 101)) .nil)) [] })
+    = ⟨recvX, .raised .valueError⟩ := by decide
+example : construct Ex 8 0 [(0, l1s), (3, .sc (.int 7)), (4, lS)] = .error .valueError := by decide
+/-- a conforming container is stored, and the element helpers work on it -/
+example : (step Ex 8 recvX (.api { op := .withA 0 (.list (.cons (.sc (.int 9)) .nil)) [], inplace := true })).recv
+    = .inst 0 (.cons 0 (.list (.cons (.sc (.int 9)) .nil)) (.cons 1 MISSING (.cons 2 MISSING
+        (.cons 3 (.sc (.int 7)) (.cons 4 lS .nil))))) := by decide
+example : step Ex 8 recvX (.elem 0 (.seqWith (.sc (.str 100)) MISSING false) true true)
+    = ⟨recvX, .raised .valueError⟩ := by decide
+example : WellTyped Ex (step Ex 8 recvX (.elem 0 (.seqWith (.sc (.int 5)) MISSING false) true true)).recv := by
+  unfold WellTyped; decide
+
+/-- a property-backed attribute: an override must conform like any other value; deleting the override (there
+is no default to fall back to) uncovers the getter again -/
+example : step Ex 8 recvX (.api { op := .withA 2 (.sc (.str 100)) [] }) = ⟨recvX, .raised .typeError⟩ := by decide
+example : step Ex 8 recvX (.api { op := .setattr 2 NONE }) = ⟨recvX, .raised .typeError⟩ := by decide
+example : step Ex 8 recvX (.api { op := .transformA 2 (some fun _ => .sc (.flt 1)) [] }) = ⟨recvX, .raised .typeError⟩ := by
+  decide
+example : (step Ex 8 recvX (.api { op := .transformA 2 (some fun v => v) [], inplace := true })).recv.getAttr 2
+    = .sc (.int 4) := by decide
+example : step Ex 8 recvX (.api { op := .delattr 2 }) = ⟨recvX, .raised .attributeError⟩ := by decide
 
 end SpecVerif.Props.C03
